@@ -32,6 +32,12 @@ let index_cmd (toks : string list) : string option =
   | "enc3" :: d :: r -> ignore d; Some (zs (enc3 (List.map z_of_string r)))
   | ["dec7"; d; c] -> Some (zlist_to_string (dec7 (nat_of_int (int_of_string d)) (z_of_string c)))
   | ["dec3"; d; c] -> Some (zlist_to_string (dec3 (nat_of_int (int_of_string d)) (z_of_string c)))
+  | "pshift" :: d :: h :: code :: coords ->
+      let dn = nat_of_int (int_of_string d) in
+      let l = z_of_string (string_of_int (int_of_string h - 1)) in
+      let t = box dn (List.map z_of_string coords) in
+      let o = dec3 dn (z_of_string code) in
+      Some ((if need_shift dn l t o then "need=1 " else "need=0 ") ^ zlist_to_string (image_shift dn l t o))
   | ["ilist"; d; per; l; i] ->
       let r = ilist_cell (nat_of_int (int_of_string d)) (bool_of_tok per) (z_of_string l) (z_of_string i) in
       Some (zlist_to_string (List.map fst r))
